@@ -25,6 +25,9 @@ Proof.
   - exact (pres_jreap s a s' HI H).
   - exact (pres_dreap s a s' HI H).
   - exact (pres_jt s a s' HI H).
+  - exact (pres_susp s a s' HI H).
+  - exact (pres_cbjs s a s' HI H).
+  - exact (pres_noself s a s' HI H).
   - exact (pres_runs0 s a s' HI H).
   - exact (pres_runs1 s a s' HI H).
   - exact (pres_created s a s' HI H).
@@ -85,6 +88,30 @@ Proof.
   intros t j Hj Hb. pose proof (i_jt _ HI t j Hj Hb) as Hs. split; [exact Hs|].
   rewrite (i_status _ HI j). unfold suspended_on in Hs. unfold status_spec, finish_complete.
   destruct (main (gt s j)); try discriminate Hs. reflexivity.
+Qed.
+
+(** no lost wake-up, as a safety statement: a joiner that is suspended with its registering callback
+    complete is the registered waiter of its target, and the target has not yet executed
+    finish.readjoin (which will make the joiner runnable); while the callback is still pending the
+    target has not executed it either (the callback holds the target's lock) *)
+Lemma no_lost_wakeup s j t : Reach s -> main (gt s j) = JSusp t ->
+  before_readjoin (gt s t) = true /\ j <> t /\
+  (cb (gt s j) = CbNone -> join_thread (gt s t) = Some j) /\
+  (cb (gt s j) <> CbNone -> cb (gt s j) = CbJoinSet t /\ lockh (gt s t) = Some j).
+Proof.
+  intros HR Hm. pose proof (Inv_reach s HR) as HI.
+  assert (Hn : j <> t).
+  { intros ->. pose proof (i_noself _ HI t) as N. rewrite Hm in N. cbn in N. now rewrite Nat.eqb_refl in N. }
+  destruct (cb (gt s j)) eqn:Ec.
+  - destruct (i_susp _ HI j t Hm Ec) as [A B]. split; [exact B|]. split; [exact Hn|]. split; [intros _; exact A|].
+    intros C. now elim C.
+  - pose proof (i_cbmain _ HI j t0 Ec) as M. rewrite Hm in M. injection M as ->.
+    split; [exact (i_cbjs _ HI j t0 Ec)|]. split; [exact Hn|]. split; [discriminate|]. intros _. split; [reflexivity|].
+    apply (i_lock_b _ HI). unfold holds. rewrite Hm, Ec. cbn. now rewrite Nat.eqb_refl.
+  - pose proof (i_cbfin _ HI j) as F. rewrite Ec in F. specialize (F eq_refl). congruence.
+  - pose proof (i_cbfin _ HI j) as F. rewrite Ec in F. specialize (F eq_refl). congruence.
+  - pose proof (i_cbfin _ HI j) as F. rewrite Ec in F. specialize (F eq_refl). congruence.
+  - pose proof (i_cbfin _ HI j) as F. rewrite Ec in F. specialize (F eq_refl). congruence.
 Qed.
 
 (** the finish.readjoin step of a reachable state always finds its waiter suspended *)
